@@ -20,7 +20,7 @@ ASSUMPTIONS = ['blacklist intervals are half-open [start,end) with start<end, as
                'fetch windows are only required to be contained and to extend by at most the fragment size (maximality is reported, not demanded)']
 MIN_NONTRIVIAL = {'quick': 3000, 'thorough': 100000}
 REQUIRED_MONITORS = ['yield:blacklisted_binning', 'yield:blacklisted_binning_window', 'yield:blacklisted_binning_contigs',
-                     'yield:fill_range', 'yield:bp_chunked', 'bed:gz', 'bed:shuffled', 'region:near_or_beyond_2^31', 'history:blacklist_file_rewritten_in_place', 'blacklist:caller_order_unsorted', 'bed:extra_columns_or_blank_separated']
+                     'yield:fill_range', 'yield:bp_chunked', 'bed:gz', 'bed:shuffled', 'region:near_or_beyond_2^31', 'history:blacklist_file_rewritten_in_place', 'blacklist:caller_order_unsorted', 'bed:extra_columns_or_blank_separated', 'history:one_blacklist_list_two_tilings']
 EXHAUSTIVE = {'quick': False, 'thorough': True}
 SHARD_TIMEOUT = {'quick': 600, 'thorough': 7200}
 
@@ -213,6 +213,23 @@ def run_case(case):
             run_one(acc, bbc, S, E, B, F, tuple(bl))
             if any(max(s, S) < min(e, E) for s, e in bl) or L > B:
                 acc.sigs.add(f'{S}/{E}/{B}/{F}/{bl}')
+            if it % 4 == 0:
+                # history: the caller keeps ONE blacklist list and tiles a smaller and then a larger region with it (per-chromosome arm, then the
+                # whole chromosome): the second tiling is judged against the intervals the caller put into the list
+                shared = list(bl)
+                E1 = S + max(1, L // r.choice([2, 3, 4]))
+                try:
+                    list(bbc.blacklisted_binning(S, E1, B, blacklist=shared, fragment_size=F))
+                    out2 = list(bbc.blacklisted_binning(S, E, B, blacklist=shared, fragment_size=F))
+                except Exception as ex:
+                    acc.violate('exception:' + type(ex).__name__, f'second tiling with the same blacklist list raised {ex!r}', {'S': S, 'E': E, 'E_first': E1, 'B': B, 'F': F, 'blacklist': list(bl)})
+                    out2 = None
+                acc.count('history:one_blacklist_list_two_tilings')
+                if out2 is not None:
+                    res = check_tiling(acc, S, E, B, F, tuple(bl), out2, 'blacklisted_binning')
+                    if res:
+                        acc.violate('second-tiling-with-the-same-list:' + res[0], f'blacklisted_binning({S}, {E}, bin={B}, fragment={F}) after tiling ({S}, {E1}) with the same '
+                                                                                f'blacklist list {list(bl)}: {res[1]}', {'S': S, 'E': E, 'E_first': E1, 'B': B, 'F': F, 'blacklist': list(bl)})
         acc.sample = {'random_example': {'start': S, 'end': E, 'bin': B, 'fragment': F, 'blacklist': bl}}
     elif case['kind'] == 'contigs':
         r = rng(case['seed'], 'C17', 'contigs', case['i'])
